@@ -5,6 +5,7 @@ go 1.23.0
 require (
 	github.com/blang/semver v3.5.1+incompatible
 	github.com/janelia-flyem/dvid v0.0.0
+	github.com/janelia-flyem/go v0.0.0-20180718195536-d388bdc31871
 	github.com/valyala/gorpc v0.0.0-20160519171614-908281bef774
 	google.golang.org/protobuf v1.33.0
 )
@@ -50,7 +51,6 @@ require (
 	github.com/googleapis/enterprise-certificate-proxy v0.2.3 // indirect
 	github.com/googleapis/gax-go/v2 v2.7.1 // indirect
 	github.com/hashicorp/go-uuid v1.0.2 // indirect
-	github.com/janelia-flyem/go v0.0.0-20180718195536-d388bdc31871 // indirect
 	github.com/janelia-flyem/protolog v0.0.0-20191102211808-ce1a9ba02c03 // indirect
 	github.com/jcmturner/aescts/v2 v2.0.0 // indirect
 	github.com/jcmturner/dnsutils/v2 v2.0.0 // indirect
